@@ -53,11 +53,15 @@ fn run(input: RunInput) -> ScenFuture {
         let d_in = w.flag("inbound_default", 0.7).then(|| w.param("inbound_default_ms", 0, 3000) as u64);
         let d_out = w.flag("outbound_default", 0.7).then(|| w.param("outbound_default_ms", 0, 3000) as u64);
         let n_calls = w.param("calls", 1, 30) as u64;
-        let mut cfg_s = base_config(60_000, Some(5_000));
+        // the transport's idle timeout is no request deadline: with keep-alives flowing, a handler
+        // may take longer than it (in part of the runs it is shorter than most handler durations)
+        let idle_ms = if w.flag("short_transport_idle_timeout", 0.4) { w.param("idle_ms", 600, 5_000) as u64 } else { 60_000 };
+        let ka_ms = (idle_ms / 4).min(5_000);
+        let mut cfg_s = base_config(idle_ms, Some(ka_ms));
         cfg_s.inbound_request_timeout_ms = d_in;
         // the server's outbound default and the caller's inbound default must not matter
         cfg_s.outbound_request_timeout_ms = w.flag("decoy_server_outbound", 0.5).then_some(1);
-        let mut cfg_c = base_config(60_000, Some(5_000));
+        let mut cfg_c = base_config(idle_ms, Some(ka_ms));
         cfg_c.outbound_request_timeout_ms = d_out;
         cfg_c.inbound_request_timeout_ms = w.flag("decoy_caller_inbound", 0.5).then_some(1);
         // a small stream budget granted by the server: requests waiting for a stream are waiting
@@ -377,7 +381,7 @@ fn run(input: RunInput) -> ScenFuture {
         //      handler needed less than the deadline, so it "is answered normally"; only a caller
         //      without a deadline of its own can tell (its own would have expired in the jump) ----
         if let (Some(din), None) = (d_in, d_out) {
-            if din >= 100 && !w.violated() && w.flag("clock_jump_phase", 0.5) {
+            if din >= 100 && idle_ms >= 60_000 && !w.violated() && w.flag("clock_jump_phase", 0.5) {
                 let h_ms = r.gen_range(5..din.min(400) - 40);
                 let jump_ms = (din - h_ms / 2) + r.gen_range(50..400);
                 let req = Request::new(Bytes::from_static(b"jump")).with_header("x-nonce", "5000").with_header("x-delay-us", (h_ms * 1000).to_string());
